@@ -289,8 +289,8 @@ harness_g!(name=c02_binomial_big_63_31, prop=C02, mode=R, kind=normal, tier=quic
 
 // @claim c02_setters_: the density keeps matching the textbook formula of the CURRENT parameters after setters (Beta, Gamma; cached state must follow)
 harness_g!(name=c02_setters_beta, prop=C02, mode=R, kind=normal, tier=quick, unwind=6, {
-    let (a0, b0) = (par(3, 1.0e-3, 1.0e3), par(4, 1.0e-3, 1.0e3));
-    let (a, b, x) = (par(0, 1.0e-3, 1.0e3), par(1, 1.0e-3, 1.0e3), par(2, 0.0, 1.0));
+    let (a0, b0) = (par(3, 0.5, 20.0), par(4, 0.5, 20.0));
+    let (a, b, x) = (par(0, 0.5, 20.0), par(1, 0.5, 20.0), par(2, 0.05, 0.95));
     let mut d = Beta::new(a0, b0);
     d.set_alpha(a).set_beta(b);
     let want = x.powf(a - 1.0) * (1.0 - x).powf(b - 1.0) * g(a + b) / (g(a) * g(b));
@@ -300,8 +300,8 @@ harness_g!(name=c02_setters_beta, prop=C02, mode=R, kind=normal, tier=quick, unw
     vclose!(e.pdf(x), want, rel(want), "Beta pdf after update");
 });
 harness_g!(name=c02_setters_gamma, prop=C02, mode=R, kind=normal, tier=quick, unwind=6, {
-    let (a0, b0) = (par(3, 1.0e-3, 1.0e3), par(4, 1.0e-3, 1.0e3));
-    let (a, b, x) = (par(0, 1.0e-3, 1.0e3), par(1, 1.0e-3, 1.0e3), par(2, 1.0e-3, 1.0e3));
+    let (a0, b0) = (par(3, 0.5, 20.0), par(4, 0.5, 20.0));
+    let (a, b, x) = (par(0, 0.5, 20.0), par(1, 0.5, 20.0), par(2, 0.05, 20.0));
     let mut d = Gamma::new(a0, b0);
     d.set_beta(b).set_alpha(a);
     let want = b.powf(a) * x.powf(a - 1.0) * (-b * x).exp() / g(a);
